@@ -729,33 +729,64 @@ func c06FreshContext(w *World, r *Report) {
 		}
 		ok := machParam != nil
 		shared := []string{}
-		for _, b := range fn.Blocks {
-			for _, in := range b.Instrs {
-				st, isS := in.(*ssa.Store)
-				if !isS {
-					continue
-				}
-				fa, isF := st.Addr.(*ssa.FieldAddr)
-				if !isF || namedStructOf(fa.X.Type()) != "context" || !pointerLike(st.Val.Type()) {
-					continue
-				}
-				rs := eff.rootsOf(st.Val)
-				fld := fa.X.Type().Underlying().(*types.Pointer).Elem().Underlying().(*types.Struct).Field(fa.Field).Name()
-				fromMach := false
-				for i, p := range fn.Params {
-					if rs.params[i] && p == machParam {
-						fromMach = true
+		// scan looks at the stores into the new context in g, where the parameters of g listed in
+		// fromMachine are (rooted in) the machine; a constructor that delegates to another one of the
+		// module is followed with the arguments it hands on
+		var scan func(g *ssa.Function, fromMachine map[int]bool, depth int)
+		scan = func(g *ssa.Function, fromMachine map[int]bool, depth int) {
+			for _, b := range g.Blocks {
+				for _, in := range b.Instrs {
+					if c, isC := in.(*ssa.Call); isC && depth < 2 {
+						h := c.Call.StaticCallee()
+						if h != nil && h != g && h.Blocks != nil && strings.HasPrefix(pkgPathOf(h), modPath) && h.Signature.Results().Len() == 1 && namedStructOf(h.Signature.Results().At(0).Type()) == "context" {
+							sub := map[int]bool{}
+							for ai, a := range c.Call.Args {
+								if !pointerLike(a.Type()) {
+									continue
+								}
+								rs := eff.rootsOf(a)
+								for i := range g.Params {
+									if rs.params[i] && fromMachine[i] {
+										sub[ai] = true
+									}
+								}
+							}
+							scan(h, sub, depth+1)
+						}
 					}
-				}
-				if fromMach {
-					shared = append(shared, fld)
-				}
-				if len(rs.globals) > 0 {
-					ok = false
-					r.Fail("R06.5", name+": context."+fld, st.Pos(), "per-run state is initialised from a package-level variable")
+					st, isS := in.(*ssa.Store)
+					if !isS {
+						continue
+					}
+					fa, isF := st.Addr.(*ssa.FieldAddr)
+					if !isF || namedStructOf(fa.X.Type()) != "context" || !pointerLike(st.Val.Type()) {
+						continue
+					}
+					rs := eff.rootsOf(st.Val)
+					fld := fa.X.Type().Underlying().(*types.Pointer).Elem().Underlying().(*types.Struct).Field(fa.Field).Name()
+					fromMach := false
+					for i := range g.Params {
+						if rs.params[i] && fromMachine[i] {
+							fromMach = true
+						}
+					}
+					if fromMach {
+						shared = append(shared, fld)
+					}
+					if len(rs.globals) > 0 {
+						ok = false
+						r.Fail("R06.5", name+": context."+fld, st.Pos(), "per-run state is initialised from a package-level variable")
+					}
 				}
 			}
 		}
+		top := map[int]bool{}
+		for i, p := range fn.Params {
+			if p == machParam {
+				top[i] = true
+			}
+		}
+		scan(fn, top, 0)
 		sort.Strings(shared)
 		r.Check(ok && strings.Join(shared, ",") == "prog", "R06.5", name, fn.Pos(), "shares only prog with the machine; everything else fresh or caller-supplied",
 			"the context shares {"+strings.Join(shared, ",")+"} with the machine (only the immutable program may be shared)")
